@@ -104,7 +104,7 @@ def run(prop, seed, tier, only=None):
     if tier != 'quick':
         structs += F.all_structs(2)
     unions = [F.build_union('UU%d' % i, [rng.choice(F.FIXED_TYPES) for _ in range(rng.randint(1, 4))])
-              for i in range(12 if tier == 'quick' else 100)]
+              for i in range(12 if tier == 'quick' else 100)] + F.all_unions()
     failures, cases, distinct = [], [0], set()
 
     def fail(key, txt, v, what):
